@@ -404,7 +404,7 @@ fn drive_pattern(p: &str, names: &[String], do_match: bool) -> bool {
                 let pc: Vec<char> = p.chars().collect();
                 // (under Miri every match of a wide alternation costs seconds:
                 // three such candidates there, two dozen natively)
-                let max_cut = if cfg!(miri) { 3 } else { 24 };
+                let max_cut = if !cfg!(miri) { 24 } else if p.contains('{') { 0 } else { 3 };
                 let mut cut = 0;
                 for i in 0..pc.len() {
                     if i == 0 || matches!(pc[i - 1], '{' | ',' | '}') {
